@@ -248,7 +248,10 @@ impl BuildHasher for ConstHasher {
     fn build_hasher(&self) -> ConstHasher { ConstHasher }
 }
 
+thread_local! { pub static SERDE_HEAVY: std::cell::Cell<bool> = std::cell::Cell::new(false); }
+
 pub fn map_segment<Ty: EdgeType + Clone, S: BuildHasher + Default + Clone>(rng: &mut Rng, log: &mut Log, len: usize, hname: &str) {
+    let heavy = SERDE_HEAVY.with(|c| c.get());
     let directed = Ty::is_directed();
     log.ev(json!({"op":"reset","kind":"map","directed":directed,"hasher":hname}));
     let mut g: GraphMap<i32, i32, Ty, S> = GraphMap::with_capacity_and_hasher(0, 0, S::default());
@@ -258,6 +261,8 @@ pub fn map_segment<Ty: EdgeType + Clone, S: BuildHasher + Default + Clone>(rng: 
     let key = |rng: &mut Rng| keys[rng.below(keys.len())];
     for step in 0..len {
         let r = rng.below(100);
+        // C17 driver: a third of the calls are loads of foreign streams or serde round trips of the map itself
+        let r = if heavy && rng.chance(1, 3) { if rng.chance(1, 2) { 86 } else { 89 } } else { r };
         let (e, ret) = if r < 12 {
             let n = key(rng);
             (json!({"op":"add_node","n":n}), rint(g.add_node(n) as i64))
@@ -331,7 +336,23 @@ pub fn map_segment<Ty: EdgeType + Clone, S: BuildHasher + Default + Clone>(rng: 
             }
         } else if r < 91 {
             // clone, and GraphMap -> Graph -> GraphMap: same graph
-            if rng.chance(1, 2) { g = g.clone(); (json!({"op":"noeffect","which":"clone"}), rs("ok")) }
+            if heavy || rng.chance(1, 3) {
+                // the map's own serde round trip (bincode or JSON): the same map comes back
+                let via = *rng.pick(&["bincode", "json"]);
+                let e = json!({"op":"noeffect","which":format!("serde_{}", via)});
+                log.about_to(&e);
+                let back: Result<Result<GraphMap<i32, i32, Ty, S>, String>, ()> = guard(|| if via == "bincode" {
+                    bincode::deserialize(&bincode::serialize(&g).unwrap()).map_err(|e| e.to_string())
+                } else {
+                    serde_json::from_str(&serde_json::to_string(&g).unwrap()).map_err(|e| e.to_string())
+                });
+                match back {
+                    Ok(Ok(m)) => { g = m; (e, rs("ok")) }
+                    Ok(Err(msg)) => (e, json!(["err_s", msg])),
+                    Err(()) => (e, json!(["panic"])),
+                }
+            }
+            else if rng.chance(1, 2) { g = g.clone(); (json!({"op":"noeffect","which":"clone"}), rs("ok")) }
             else {
                 let h = g.clone().into_graph::<u32>();
                 let back: GraphMap<i32, i32, Ty, S> = GraphMap::from_graph(h);
@@ -567,6 +588,13 @@ pub fn gen_c03(seed: u64, segments: usize, len: usize, log: &mut Log) {
             _ => map_segment::<Undirected, ConstHasher>(&mut rng, log, len, "const"),
         }
     }
+}
+
+/// C17: GraphMap serde - the C03 driver with loads of foreign Graph streams and own round trips dominating
+pub fn gen_c17_map(seed: u64, segments: usize, len: usize, log: &mut Log) {
+    SERDE_HEAVY.with(|c| c.set(true));
+    gen_c03(seed, segments, len, log);
+    SERDE_HEAVY.with(|c| c.set(false));
 }
 
 pub fn gen_c04(seed: u64, segments: usize, len: usize, log: &mut Log) {
